@@ -58,7 +58,7 @@ func planC03(w *World, spec RunSpec) {
 	w.drawFaultMix("err-before", "lost-response", "crash", "compaction", "duplicate")
 	w.Cfg.Faults["drift"] = !w.Cfg.FaultFree
 	w.Cfg.Ndist = 40 + s.Intn(260, "ndist")
-	w.Scenario = GenOS(w, OSProfile{MaxSets: 2, Delegation: true, NeverReady: true, LateCreate: true, Lifecycle: s.Chance(1, 2, "lifecycle-ops")})
+	w.Scenario = GenOS(w, OSProfile{MaxSets: 2, Delegation: true, NeverReady: true, LateCreate: true, Lifecycle: s.Chance(1, 2, "lifecycle-ops"), EmptyProbeEntry: true})
 	w.StartProcesses()
 	w.Disturb(w.Cfg.Ndist)
 	w.finish()
